@@ -16,6 +16,8 @@ CHECKS = {
         "assumptions": ["interleaving granularity = frontend call-outs", "goroutines the library spawns are identified by goroutine id + task id in the context"],
         "jobs": [
             {"run": "^TestC01SingleBuild$", "n": {"quick": 10000, "thorough": 60000}},
+            # bursts over up to 520 distinct keys locked at the same time, drained to 1-3 builds in flight
+            {"run": "^TestC01ManyKeys$", "n": {"quick": 400, "thorough": 4000}},
             {"run": "^TestC01Sweep$", "n": {"quick": 1, "thorough": 1}, "env_tier": {"quick": {"VERIF_SWEEP_LIMIT": 30}, "thorough": {}},
              "shards": {"quick": 1, "thorough": 16}},
             {"run": "^TestC01Stress$", "race": True, "n": {"quick": 150, "thorough": 400}, "shards": {"quick": 1, "thorough": 8}},
